@@ -127,6 +127,8 @@ pub fn translate(src: &str, opts: &Options) -> Res<String> {
         deferred_tys: BTreeMap::new(),
         tuple_state: false,
         mut_params: vec![],
+        mut_idx: vec![],
+        call_mut_idx: vec![],
         loop_ctx: None,
     };
     // the inherent impl blocks of each type
